@@ -26,7 +26,7 @@ import (
 func init() {
 	Registry["C10"] = RunC10
 	Metas["C10"] = Meta{
-		Rule: "episode = real http1.HostClient (MaxConns 1..4, wait-for-connection off/short/long, MaxIdleConnDuration, MaxConnDuration, read/request/dial timeouts, response streaming, retry config) driven by 2..6 caller tasks x 1..5 calls (GET/POST/PUT, byte or stream bodies, Do/DoTimeout/DoDeadline, contexts cancelled before/during) against a scripted server; per-exchange fault drawn from {ok keep-alive, ok+Connection: close, FIN before first byte, FIN mid-header, FIN mid-body, RST mid-response, stall past the read timeout, trickle around the deadline} plus idle FIN/RST on pooled connections, dial error/stall/timeout, server restart, a bystander calling CloseIdleConnections while connections sit in the pool; responses with Content-Length: 0 among the others; every pool lock boundary (verifhook.Yield), every connection read/write/dial is a scheduler decision; fake clock. Non-trivial: >= 2 callers overlapped inside the pool (two tasks parked at pool yield sites at the same step) or a fault fired inside an exchange; distinct = abstract signature (sequence of yield sites by task role + fault kinds + pool-state tuples). Added later: Content-Length: 0 responses, a bystander calling CloseIdleConnections, use-after-announced-close judged at the client end, unexplained errors in fault-free episodes; and a second scenario on client.Client (host map, per-host HostClients created on first use, 10 s cleaner) with scheduler stalls (runnable tasks held back while timers fire) and the per-host-address connection bound.",
+		Rule: "episode = real http1.HostClient (MaxConns 1..4, wait-for-connection off/short/long, MaxIdleConnDuration, MaxConnDuration, read/request/dial timeouts, response streaming, retry config) driven by 2..6 caller tasks x 1..5 calls (GET/POST/PUT, byte or stream bodies, Do/DoTimeout/DoDeadline, contexts cancelled before/during) against a scripted server; per-exchange fault drawn from {ok keep-alive, ok+Connection: close, FIN before first byte, FIN mid-header, FIN mid-body, RST mid-response, stall past the read timeout, trickle around the deadline} plus idle FIN/RST on pooled connections, dial error/stall/timeout, server restart, a bystander calling CloseIdleConnections while connections sit in the pool; responses with Content-Length: 0 among the others; every pool lock boundary (verifhook.Yield), every connection read/write/dial is a scheduler decision; fake clock. Non-trivial: >= 2 callers overlapped inside the pool (two tasks parked at pool yield sites at the same step) or a fault fired inside an exchange; distinct = abstract signature (sequence of yield sites by task role + fault kinds + pool-state tuples). Added later: Content-Length: 0 responses, a bystander calling CloseIdleConnections, use-after-announced-close judged at the client end, unexplained errors in fault-free episodes; and a second scenario on client.Client (host map, per-host HostClients created on first use, 10 s cleaner) with scheduler stalls (runnable tasks held back while timers fire) and the per-host-address connection bound; response bodies larger than what a streaming client reads ahead, and a client-end oracle: no write on a connection after a read on it reported end-of-stream.",
 		Real: []string{"http1.HostClient: Do/doNonNilReqResp/acquireConn/queueForIdle/releaseConn/closeConn/decConnsCount/dialConnFor/wantConn/connsCleaner/CloseIdleConnections", "req.Write, resp.ReadHeaders/ReadRespBody/ReadRespBodyStream, clientRespStream", "standard.Conn", "timer pool, context deadlines (fake clock)"},
 		Stub: []string{"TCP + dial (SimConn, SimDialer)", "server (scripted actor)", "clock (synctest)"},
 		Assumptions: []string{
@@ -34,7 +34,7 @@ func init() {
 			"the call-duration bound is computed on the fake clock from the configuration: attempts x (connection wait + dial timeout + max(request timeout, read timeout)) + retry delays + 1ms",
 			"a queue entry of a waiter that already gave up is not counted as a queued waiter (the queue is cleaned lazily)",
 		},
-		RequiredProbes: []string{"yield:acquireConn", "yield:releaseConn", "yield:closeConn", "yield:decConnsCount", "yield:queueForIdle", "yield:dialConnFor", "yield:dialConnFor.deliver", "yield:wantConn.cancel", "yield:acquireConn.woken", "yield:acquireConn.timeout", "yield:connsCleaner.scan", "waiter-delivered-by-release", "waiter-delivered-by-dial", "bad-pool-conn-retry", "cleaner-closed", "stream-release", "fault:stall", "fault:fin-mid-body", "fault:idle-fin", "fault:ctx-cancel", "dial-error", "reaped", "empty-response", "close-idle-connections", "app-client", "sched-stall"},
+		RequiredProbes: []string{"yield:acquireConn", "yield:releaseConn", "yield:closeConn", "yield:decConnsCount", "yield:queueForIdle", "yield:dialConnFor", "yield:dialConnFor.deliver", "yield:wantConn.cancel", "yield:acquireConn.woken", "yield:acquireConn.timeout", "yield:connsCleaner.scan", "waiter-delivered-by-release", "waiter-delivered-by-dial", "bad-pool-conn-retry", "cleaner-closed", "stream-release", "fault:stall", "fault:fin-mid-body", "fault:idle-fin", "fault:ctx-cancel", "dial-error", "reaped", "empty-response", "close-idle-connections", "app-client", "sched-stall", "big-response"},
 	}
 }
 
@@ -48,6 +48,7 @@ type c10call struct {
 	end       time.Time
 	returned  bool
 	emptyResp bool // the exchange that answered this call carried Content-Length: 0
+	bigResp   int  // extra body bytes: the response body is larger than what a streaming client reads ahead
 	err       error
 	cancelled bool
 	status    int
@@ -198,6 +199,10 @@ func RunC10(ep *core.Episode) {
 			who = cl.id
 			cl.conns[id] = true
 		}
+		if op == "write" && c.SawEOF {
+			ep.Fail("C10.reuse", "connection k%d is written to by call %s after a read on it had reported the peer's end-of-stream (users so far: %v)", id, who, connLog[id])
+			return
+		}
 		if pr := peers[id]; pr != nil && pr.closeBy != "" && cl != nil && cl.id != pr.closeBy {
 			ep.Fail("C10.reuse", "connection k%d is used by call %s after its exchange for %s announced Connection: close", id, cl.id, pr.closeBy)
 			return
@@ -209,8 +214,8 @@ func RunC10(ep *core.Episode) {
 	}
 
 	// ---- scripted server ----
-	respFor := func(id string, closeHdr, empty bool) []byte {
-		body := "resp-for-" + id + "-" + strings.Repeat("x", 20+len(id)*7)
+	respFor := func(id string, closeHdr, empty bool, extra int) []byte {
+		body := "resp-for-" + id + "-" + strings.Repeat("x", 20+len(id)*7+extra)
 		if empty {
 			body = "" // an explicit Content-Length: 0 on a status that may carry a body
 		}
@@ -311,14 +316,21 @@ func RunC10(ep *core.Episode) {
 					}
 					kind := tp.Weighted("xfault", w)
 					closeHdr := kind == 1 || (m.Proto == "HTTP/1.1" && hasClose(m))
-					empty := tp.Chance("emptyresp", 1, 5)
+					ek := tp.Choose("emptyresp", 7) // 4: empty body; 5, 6: a body beyond what a streaming client reads ahead
+					empty := ek == 4
+					extra := 0
+					if ek >= 5 {
+						extra = []int{9000, 20000}[ek-5]
+						ep.Probe("big-response")
+					}
 					if cl != nil {
 						cl.emptyResp = empty
+						cl.bigResp = extra
 					}
 					if empty {
 						ep.Probe("empty-response")
 					}
-					full := respFor(id, kind == 1, empty)
+					full := respFor(id, kind == 1, empty, extra)
 					hdrEnd := bytes.Index(full, []byte("\r\n\r\n")) + 4
 					ep.Logf("  server k%d: request %s (%s), fault kind %d", p.ID, id, m.Method, kind)
 					switch kind {
@@ -507,7 +519,7 @@ func RunC10(ep *core.Episode) {
 				if err == nil {
 					cl.status = resp.StatusCode()
 					// the response is the response to this caller's request
-					want := "resp-for-" + cl.id + "-" + strings.Repeat("x", 20+len(cl.id)*7)
+					want := "resp-for-" + cl.id + "-" + strings.Repeat("x", 20+len(cl.id)*7+cl.bigResp)
 					if cl.emptyResp {
 						want = ""
 					}
